@@ -1187,7 +1187,7 @@ package scipipe
 
 // Ghost log of an out-port: the sequence of IPs handed to OutPort.Send (by the goroutine under verification).
 //@ ghost var outN arr[ref]int
-//@ ghost var outAt arr[ref]arr[int]*FileIP
+//@ ghost var outAt arr[ref]arr[int]ref
 // Ghost count of CloseConnection calls received by an in-port
 //@ ghost var closeCalls arr[ref]int
 
